@@ -85,6 +85,7 @@ type Worker struct {
 	gor       *gorState
 	intr      map[*ssa.Function]intrinsic
 	jobPaths  int
+	known     map[int]bool
 	reached   []string
 
 	res *HarnessResult // accumulates locally; merged at job end
@@ -303,10 +304,20 @@ func (w *Worker) assume(c T) {
 	if c.IsFalse() {
 		panic(pathEnd{kind: "assume"})
 	}
+	if v, ok := w.lookupKnown(c); ok && v {
+		return
+	}
 	if w.live() || w.assertRep {
 		w.solver.Assert(c)
 		w.pcSat = false
+		if w.eng.Opt.EagerAssume && w.live() {
+			if w.solver.Check() == sym.Unsat {
+				panic(pathEnd{kind: "infeasible"})
+			}
+			w.pcSat = true
+		}
 	}
+	w.learn(c, true)
 }
 
 // decide picks one of the alternatives; forks the path.
@@ -429,6 +440,67 @@ func (w *Worker) decide(alts []T, exhaustive bool, kind string) int {
 	panic(pathEnd{kind: "infeasible"})
 }
 
+// learn records the truth value of a decided condition (and cheap
+// consequences) so that later branches on the same term need no query.
+func (w *Worker) learn(c T, val bool) {
+	if c.IsConst() {
+		return
+	}
+	if c.K == sym.KBNot {
+		w.learn(c.A, !val)
+		return
+	}
+	w.known[c.ID] = val
+	tb := w.tb
+	switch c.K {
+	case sym.KUlt:
+		if val { // a<b  =>  !(b<a), a!=b
+			w.setKnown(tb.Ult(c.B, c.A), false)
+			w.setKnown(tb.Eq(c.A, c.B), false)
+		}
+	case sym.KSlt:
+		if val {
+			w.setKnown(tb.Slt(c.B, c.A), false)
+			w.setKnown(tb.Eq(c.A, c.B), false)
+		}
+	case sym.KEq:
+		if val && c.A.S == sym.SInt {
+			w.setKnown(tb.Ult(c.A, c.B), false)
+			w.setKnown(tb.Ult(c.B, c.A), false)
+		}
+	case sym.KBAnd:
+		if val {
+			w.learn(c.A, true)
+			w.learn(c.B, true)
+		}
+	case sym.KBOr:
+		if !val {
+			w.learn(c.A, false)
+			w.learn(c.B, false)
+		}
+	}
+}
+
+func (w *Worker) setKnown(c T, val bool) {
+	if c.IsConst() {
+		return
+	}
+	if c.K == sym.KBNot {
+		w.known[c.A.ID] = !val
+		return
+	}
+	w.known[c.ID] = val
+}
+
+func (w *Worker) lookupKnown(c T) (bool, bool) {
+	if c.K == sym.KBNot {
+		v, ok := w.known[c.A.ID]
+		return !v, ok
+	}
+	v, ok := w.known[c.ID]
+	return v, ok
+}
+
 // branch forks on a boolean term.
 func (w *Worker) branch(c T) bool {
 	if c.IsTrue() {
@@ -437,7 +509,12 @@ func (w *Worker) branch(c T) bool {
 	if c.IsFalse() {
 		return false
 	}
-	return w.decide([]T{c, w.tb.BNot(c)}, true, "if") == 0
+	if v, ok := w.lookupKnown(c); ok {
+		return v
+	}
+	r := w.decide([]T{c, w.tb.BNot(c)}, true, "if") == 0
+	w.learn(c, r)
+	return r
 }
 
 // concretize forks over the values 0..n-1 of t (plus out-of-range alternative,
@@ -508,6 +585,7 @@ func (w *Worker) resetPath() {
 	w.pcSat = true
 	w.gor = nil
 	w.reached = w.reached[:0]
+	w.known = map[int]bool{}
 }
 
 func (w *Worker) pathChoices() []int {
